@@ -40,7 +40,7 @@ def unwrap_ptr(n):
 
 def obj_is_param(call, fn, idx=0):
     o = unwrap_ptr(call.get("obj"))
-    return isinstance(o, dict) and o.get("k") == "ref" and idx < len(fn.params) and o.get("decl") == fn.params[idx]["decl"]
+    return isinstance(o, dict) and o.get("k") == "ref" and idx < len(fn.params) and is_ref_to(o, fn.params[idx]["decl"])
 
 
 def arg_is_param(call, argidx, fn, pidx=0):
@@ -48,7 +48,7 @@ def arg_is_param(call, argidx, fn, pidx=0):
     if argidx >= len(a):
         return False
     x = skip_copies(a[argidx])
-    return isinstance(x, dict) and x.get("k") == "ref" and x.get("decl") == fn.params[pidx]["decl"]
+    return isinstance(x, dict) and x.get("k") == "ref" and is_ref_to(x, fn.params[pidx]["decl"])
 
 
 def refs_to(fn, decl):
@@ -166,11 +166,24 @@ def deref_local(fn, n):
     """if n is a reference to a local that is initialised once and never written again, its initialiser; else n"""
     n = skip_copies(n)
     seen = 0
-    while fn is not None and isinstance(n, dict) and n.get("k") == "ref" and n.get("dk") == "local" and seen < 5:
+    while fn is not None and isinstance(n, dict) and seen < 8:
+        if n.get("k") == "call" and n.get("inl_value") is not None and n["inl_value"] in fn.nodes:
+            # call of a helper spliced into this function that has a single `return <expr>`: the call stands for <expr>
+            n = skip_copies(fn.nodes[n["inl_value"]])
+            seen += 1
+            continue
+        if not (n.get("k") == "ref" and n.get("dk") == "local"):
+            break
         dn, var = local_var(fn, n["decl"])
         if var is None or not isinstance(var.get("init"), dict):
             break
-        if any(write_kind(fn, r) or assignment_target(fn, r)[0] is not None for r in refs_to(fn, n["decl"])):
+        vt = (var.get("type") or "").rstrip()
+        if vt.endswith("&"):
+            pass   # a reference is an alias for good: calls and assignments go to the object, the binding never changes
+        elif vt.endswith("*") or vt.endswith("*const") or vt.endswith("* const"):
+            if any(assignment_target(fn, r)[0] is not None or (write_kind(fn, r) or "").startswith(("incdec", "address-of")) for r in refs_to(fn, n["decl"])):
+                break
+        elif any(write_kind(fn, r) or assignment_target(fn, r)[0] is not None for r in refs_to(fn, n["decl"])):
             break
         n = skip_copies(var["init"])
         seen += 1
